@@ -1,6 +1,7 @@
 package main
 
 import (
+	"errors"
 	"flag"
 	"fmt"
 	"math"
@@ -28,7 +29,10 @@ type statCall struct {
 type recStatter struct {
 	mu    sync.Mutex
 	calls []statCall
+	fail  int // the next `fail` calls are recorded and then answered with an error
 }
+
+var errStatter = errors.New("statsd client: send failed")
 
 func rateStr(r float32) string { return strconv.FormatFloat(float64(r), 'g', -1, 32) }
 
@@ -36,6 +40,10 @@ func (s *recStatter) add(m, stat string, v int64, rate float32) error {
 	s.mu.Lock()
 	defer s.mu.Unlock()
 	s.calls = append(s.calls, statCall{M: m, raw: stat, V: fmt.Sprint(v), Rate: rateStr(rate)})
+	if s.fail > 0 {
+		s.fail--
+		return errStatter
+	}
 	return nil
 }
 func (s *recStatter) Inc(stat string, v int64, rate float32, _ ...cstatsd.Tag) error {
@@ -122,7 +130,10 @@ func init() {
 				}
 				tags := map[string]string{"ignored": "tag"}
 				for _, n := range names {
-					for _, v := range ivals {
+					for vi, v := range ivals {
+						if vi%3 == 1 {
+							st.fail = 1 // the client fails this call: the next report of the same stat is still forwarded as it is
+						}
 						rep.ReportCounter(n, tags, v)
 						emitReport("counter", n, fmt.Sprint(v), "", 0, 0)
 						rep.ReportTimer(n, tags, time.Duration(v))
